@@ -49,6 +49,8 @@ CHUNKINGS = {
     "one": [b"x"],
     "three": [b"0123456789", b"abcdefghij", b"ABCDEFGHIJ"],
     "big": [bytes([65 + (i % 26)]) * 9000 for i in range(3)],  # 27 000 B > one frame
+    "empty": [],  # no body bytes at all: END_STREAM needs no window
+    "exact": [b"e" * 65535],  # exactly the default stream/connection window
     "huge": [bytes([97 + (i % 26)]) * 35000 for i in range(2)],  # 70 000 B > connection window
 }
 
@@ -80,6 +82,8 @@ def credit_script(name: str, sids: List[int]) -> list:
         return [("cmd", 0, "settings", {IWS: 100000}), ("cmd", 0, "winup", 0, big)]
     if name == "settings_down_up":
         return [("cmd", 0, "settings", {IWS: 3}), ("cmd", 0, "settings", {IWS: 200000}), ("cmd", 0, "winup", 0, big)]
+    if name == "conn_only":
+        return [("cmd", 0, "winup", 0, big)]
     if name == "rst_first":
         return [("cmd", 0, "rst", sids[0], 8)] + [("cmd", 0, "winup", s, big) for s in sids[1:]] + [("cmd", 0, "winup", 0, big)]
     if name == "prio":
@@ -95,6 +99,7 @@ STREAMSETS = [("one",), ("three",), ("big",), ("three", "one"), ("big", "three")
 CREDITS = ["none", "stream_then_conn", "conn_then_stream", "trickle", "settings_up", "settings_down_up", "rst_first", "prio"]
 
 
+BIGWIN = 2 ** 20  # stream windows far larger than the connection window: only stream-0 credit matters
 UPLOAD_FRAMES = 300  # 1 data byte + 255 padding each: 257 flow-controlled bytes per frame, 77 100 in total
 
 
@@ -103,6 +108,14 @@ def scenarios(tier: str) -> List[Any]:
     for engine in ("asyncio", "trio"):
         out.append((engine, "upload", 255, (), "padded"))
         out.append((engine, "upload", 0, (), "plain"))
+    for engine in ("asyncio", "trio"):
+        out.append((engine, 0, 16384, ("empty",), "none"))
+        out.append((engine, 0, 16384, ("empty", "three"), "none"))
+        out.append((engine, 65535, 16384, ("exact",), "none"))
+    for engine in ("asyncio", "trio"):
+        for ss in (("huge",), ("huge", "three")):
+            for cr in ("conn_only", "none"):
+                out.append((engine, BIGWIN, 16384, ss, cr))
     for engine in ("asyncio", "trio"):
         for win in ((0, 7, 65535) if tier == "quick" else (0, 1, 7, 65535)):
             for mfs in (16384, 20000):
@@ -256,9 +269,11 @@ def oracle(w: Any, params: Any) -> List[dict]:
             out.append(V("end-stream", f"{tag}:{name}:twice", f"stream {sid}: {st['ended']} END_STREAM"))
         if st["ended"] and st["body"] != want and st["reset"] is None:
             out.append(V("end-stream", f"{tag}:{name}:early", f"stream {sid}: ended after {len(st['body'])} of {len(want)} bytes"))
-        done = inst.outcome == "returned"
+        # the application has handed over its final message and every body byte has been delivered: the (zero
+        # length) END_STREAM needs no flow-control credit and must be there once the server is quiescent
+        done = any(s[2]["type"] == "http.response.body" and not s[2].get("more_body", False) for s in inst.sends)
         if done and st["body"] == want and st["ended"] != 1 and st["reset"] is None and rec.closed_at is None \
-                and not _client_reset(w, sid):
+                and not _client_reset(w, sid) and st["headers"] is not None:
             out.append(V("end-stream", f"{tag}:{name}:missing", f"stream {sid}: all {len(want)} bytes delivered, app returned, no END_STREAM"))
         for fr in cl.frames_data:
             if fr[1] == sid and fr[2] > mfs:
